@@ -78,7 +78,16 @@ fn menus(class: &str) -> Vec<Logical> {
     fn dist_b(i: usize) -> Variant {
         Variant::Float32(200.0 + i as f32)
     }
+    fn uid(i: usize) -> Variant {
+        Variant::UniqueId(rbx_types::UniqueId::new(i as u32 + 1, 7, 9))
+    }
     match class {
+        // a property whose values must be unique within a DOM: the default (nil) can be shown by
+        // one instance only
+        "Folder" => vec![
+            Logical { spellings: vec![("UniqueId", uid)] },
+            Logical { spellings: vec![("ZzFoo", foo)] },
+        ],
         "Part" => vec![
             Logical { spellings: vec![("Size", size), ("size", size)] },
             Logical { spellings: vec![("Color", color3), ("Color3uint8", color8), ("BrickColor", brick), ("brickColor", brick)] },
@@ -115,7 +124,7 @@ fn menus(class: &str) -> Vec<Logical> {
     }
 }
 
-pub const CLASSES: [&str; 6] = ["Part", "TextLabel", "ScreenGui", "ZzUnknown", "Sound", "MeshPart"];
+pub const CLASSES: [&str; 7] = ["Part", "TextLabel", "ScreenGui", "ZzUnknown", "Sound", "MeshPart", "Folder"];
 
 /// An instance configuration: per logical property 0 = absent, k = spelling k-1.
 fn config_count(class: &str) -> usize {
